@@ -127,15 +127,18 @@ def nodeVal (n : Node) : Option Nat :=
 
 def outVals (l : List Node) : List Nat := l.filterMap nodeVal
 
+/-- the loop body `for node in nodes.iter().rev() { match node.node_type … }` -/
+def writeTyped (bf : Nat) (o : BitOut) (n : Node) : BitOut :=
+  match n.nodeType with
+  | .standard => writeNode bf o n.bits
+  | .filled => writeNode bf o 0
+  | .skip => o
+
 theorem foldl_write (bf : Nat) : ∀ (l : List Node) (o : BitOut),
-    l.foldl (fun o n =>
-        match n.nodeType with
-        | .standard => writeNode bf o n.bits
-        | .filled => writeNode bf o 0
-        | .skip => o) o = (outVals l).foldl (writeNode bf) o
+    l.foldl (writeTyped bf) o = (outVals l).foldl (writeNode bf) o
   | [], o => rfl
   | n :: l, o => by
-    simp only [List.foldl_cons, outVals, List.filterMap_cons, nodeVal]
+    simp only [List.foldl_cons, outVals, List.filterMap_cons, nodeVal, writeTyped]
     cases h : n.nodeType <;> simp only [List.foldl_cons] <;> exact foldl_write bf l _
 
 /-- the non-skipped nodes of a layer in ascending index order -/
